@@ -23,7 +23,7 @@ RULE = ('files of ~150-1500 bytes from vlib.model.gen_file (contiguous, interlea
 ASSUMPTIONS = ['marker variant: strings only in single-chunk last segments (as the statement restricts)',
                'expected status: explicit offsets -> incomplete iff data_start <= cut < end of a segment; marker -> iff the last '
                "segment's metadata is complete"]
-REQUIRED = ['cuts', 'cuts_in_raw_data', 'cuts_in_metadata', 'cuts_in_lead_in', 'status_checked', 'lazy_eager_compared', 'prefix_checked',
+REQUIRED = ['long_files', 'cuts', 'cuts_in_raw_data', 'cuts_in_metadata', 'cuts_in_lead_in', 'status_checked', 'lazy_eager_compared', 'prefix_checked',
             'variant:explicit', 'variant:marker', 'cuts_checked']
 N = {'quick': 130, 'thorough': 4000}
 NDAQ = {'quick': 60, 'thorough': 2000}
@@ -34,6 +34,8 @@ def gen_cases(tier, seed):
         yield {'fam': 'model', 's': seed * 1000003 + i, 'marker': i % 3 == 2}
     for i in range(NDAQ[tier]):
         yield {'fam': 'daqmx', 's': seed * 1000003 + i, 'marker': False}
+    for i in range(N[tier] // 10):
+        yield {'fam': 'long', 's': seed * 1000003 + i, 'marker': False}
 
 
 def shard_setup(ctx):
@@ -90,7 +92,14 @@ def run_case(case, ctx):
         DQ.check_cuts(ctx, f, blob, lay, rng, eager_raw, every=len(blob) < 2500, nsample=300, prefix='daqmx-trunc')
         ctx.distinct(('daqmx',) + f.signature())
         return
-    segs, blob, lay, rng = build(case)
+    if case['fam'] == 'long':
+        from checks.c05 import long_file
+        rng = random.Random('c06l/%d' % case['s'])
+        segs = long_file(rng)
+        blob, _, lay = M.encode_file(segs)
+        ctx.count('long_files')
+    else:
+        segs, blob, lay, rng = build(case)
     variant = 'marker' if case['marker'] else 'explicit'
     ctx.count('variant:' + variant)
     exp = M.Expected(segs)
@@ -103,7 +112,8 @@ def run_case(case, ctx):
     ctx.sample({'case': case, 'file_bytes': len(blob), 'segments': desc[:2],
                 'layout(start,data_start,end)': [(l['start'], l['data_start'], l['end']) for l in lay.segs]}, limit=2)
     last = lay.segs[-1]
-    for cut in range(4, len(blob) + 1):
+    first_cut = 4 if case['fam'] != 'long' else lay.segs[-2]['start']      # long files: every offset of the last two segments
+    for cut in range(first_cut, len(blob) + 1):
         ctx.count('cuts')
         ctx.evaluation()
         seg = next((l for l in lay.segs if l['start'] <= cut < l['end'] or (l is last and cut == l['end'])), None)
